@@ -71,6 +71,12 @@ class ClassGen:
             stmts.append(('class', name, None, members))
         item_alts = [('ref', x) for x in names + leafs]
         r.shuffle(item_alts)
+        if r.random() < 0.5:
+            # inline Python that hands on an instance out of its argument: the instance keeps the span
+            # it was parsed from (not the span of the enclosing match)
+            stmts.append(('rule', 'Unwrap', None, ('apply', ('seq', [('str', '%'), ('ref', 'Item'), ('opt', ('str', '%'))]), ('py', 'lambda xs: xs[1]'))))
+            stmts.append(('rule', 'Pick', None, ('lapply', ('py', 'lambda xs: xs[-1] if xs else None'), ('right', ('str', '^'), ('star', ('ref', 'Num'))))))
+            item_alts = [('ref', 'Unwrap'), ('ref', 'Pick')] + item_alts
         stmts.append(('rule', 'Item', None, ('alt', item_alts)))
         # abandoned alternatives + memo reuse of the same instance
         stmts.append(('rule', 'Again', None, ('alt', [('seq', [('ref', 'Item'), ('str', '!')]),
